@@ -273,36 +273,39 @@ def pathNameErrs (v : View) : List Msg :=
 
 def defRef (name : String) : String := "#/definitions/" ++ name
 
-mutual
-/-- spec.go:310-357: returns (ancestors found twice, updated known set, unresolved reference seen) -/
-def circAnc (defs : String → Option Schema) : Nat → String → Schema → List String → List String × List String × Bool
-  | 0, _, _, knowns => ([], knowns, false)
-  | fuel + 1, nm, sch, knowns =>
-    if sch.base.ref == "" && sch.allOf.isEmpty then ([], knowns, false) else
+/-- the first allOf member whose walk meets a followed reference again (spec.go:345-357: the loop returns at the first
+    non-empty answer); the second component collects "unresolved reference seen" -/
+def firstHit (f : Schema → List String × Bool) : List Schema → List String × Bool
+  | [] => ([], false)
+  | c :: rest =>
+    if !(f c).1.isEmpty then f c
+    else ((firstHit f rest).1, (f c).2 || (firstHit f rest).2)
+
+/-- the allOf members the walk descends into: references and anonymous allOf -/
+def ancestryKids (s : Schema) : List Schema := s.allOf.filter fun c => c.base.ref != "" || !c.allOf.isEmpty
+
+/-- spec.go:310-357: returns (the reference met again, unresolved reference seen). `path` holds the references followed on
+    the way down to this schema (after the `fix:` commit: an ancestor shared by two branches is not a cycle; before it the
+    set was shared by all branches). Fuel bounds the nesting depth only. -/
+def circAnc (defs : String → Option Schema) : Nat → String → Schema → List String → List String × Bool
+  | 0, _, _, _ => ([], false)
+  | fuel + 1, nm, sch, path =>
+    if sch.base.ref == "" && sch.allOf.isEmpty then ([], false) else
     match chase defs 64 sch with
-    | none => ([], knowns, true)
+    | none => ([], true)
     | some schc =>
       let schn := if sch.base.ref != "" then sch.base.ref else nm
       -- spec.go:331 (after the `fix:` commit 4167e1d: the test is made for every followed reference)
-      let hit := sch.base.ref != "" && knowns.contains schn
-      let knowns' := if sch.base.ref != "" then (if knowns.contains schn then knowns else schn :: knowns) else knowns
-      if hit then ([schn], knowns', false)
-      else circAncL defs fuel schn schc.allOf knowns'
-def circAncL (defs : String → Option Schema) : Nat → String → List Schema → List String → List String × List String × Bool
-  | 0, _, _, knowns => ([], knowns, false)
-  | _, _, [], knowns => ([], knowns, false)
-  | fuel + 1, schn, chld :: rest, knowns =>
-    if chld.base.ref != "" || !chld.allOf.isEmpty then
-      match circAnc defs fuel schn chld knowns with
-      | (anc, knowns', unres) =>
-        if !anc.isEmpty then (anc, knowns', unres)
-        else match circAncL defs fuel schn rest knowns' with
-          | (anc2, k2, u2) => (anc2, k2, unres || u2)
-    else circAncL defs fuel schn rest knowns
-end
+      if sch.base.ref != "" && path.contains schn then ([schn], false)
+      else firstHit (fun chld => circAnc defs fuel schn chld (if sch.base.ref != "" then schn :: path else path)) (ancestryKids schc)
 
-mutual
-/-- spec.go:269-308: returns (duplicates as "definition.name", updated known set) -/
+/-- the bookkeeping of property names met so far: (duplicates, names known), spec.go:296-305 -/
+def scanNames (label : String) (names : List String) (knowns : List String) : List String × List String :=
+  names.foldl (fun (acc : List String × List String) k =>
+    if acc.2.contains k then (acc.1 ++ [label ++ "." ++ k], acc.2) else (acc.1, k :: acc.2)) ([], knowns)
+
+/-- spec.go:269-308: returns (duplicates as "definition.name", updated known set); the known names travel from one allOf
+    member to the next. Go ranges over the property map; the *set* of duplicates does not depend on the order. -/
 def dupProps (defs : String → Option Schema) : Nat → String → Schema → List String → List String × List String
   | 0, _, _, knowns => ([], knowns)
   | fuel + 1, nm, sch, knowns =>
@@ -310,19 +313,10 @@ def dupProps (defs : String → Option Schema) : Nat → String → Schema → L
     | none => ([], knowns)
     | some schc =>
       let schn := if sch.base.ref != "" then sch.base.ref else nm
-      if !schc.allOf.isEmpty then dupPropsL defs fuel schn schc.allOf knowns
-      else
-        -- Go ranges over the property map; the *set* of duplicates does not depend on the order
-        (akeys schc.props).foldl (fun (acc : List String × List String) k =>
-          if acc.2.contains k then (acc.1 ++ [schn ++ "." ++ k], acc.2) else (acc.1, k :: acc.2)) ([], knowns)
-def dupPropsL (defs : String → Option Schema) : Nat → String → List Schema → List String → List String × List String
-  | 0, _, _, knowns => ([], knowns)
-  | _, _, [], knowns => ([], knowns)
-  | fuel + 1, schn, chld :: rest, knowns =>
-    match dupProps defs fuel schn chld knowns with
-    | (d1, k1) => match dupPropsL defs fuel schn rest k1 with
-      | (d2, k2) => (d1 ++ d2, k2)
-end
+      if !schc.allOf.isEmpty then
+        schc.allOf.foldl (fun (acc : List String × List String) chld =>
+          ((acc.1 ++ (dupProps defs fuel schn chld acc.2).1), (dupProps defs fuel schn chld acc.2).2)) ([], knowns)
+      else scanNames schn (akeys schc.props) knowns
 
 /-- spec.go:223-259, definitions in the order Go happens to range over them: the loop *returns*
     at the first definition with circular ancestry -/
@@ -331,7 +325,7 @@ def duplicatePropertyErrs (defs : String → Option Schema) : List (String × Sc
   | (k, sch) :: rest =>
     if sch.allOf.isEmpty then duplicatePropertyErrs defs rest else
     match circAnc defs 64 k sch [defRef k] with
-    | (ancs, _, _) =>
+    | (ancs, _) =>
       if !ancs.isEmpty then [mkMsg "circularAncestryDefinition" [k, goList ancs]]
       else match dupProps defs 64 k sch [] with
         | (dups, _) =>
